@@ -224,6 +224,32 @@ theorem undo_uses_same_resolver (E : Env) (ls : Oid → Tid → Option Record) (
       e = .undoError) :=
   Proofs.C10Props.undo_uses_same_resolver E ls cache oid ctid undoneTid preData currentData d
 
+/-- The whole undo decision for one object (`undoRecord` = `_transactionalUndoRecord`): if the undo
+    record is a merge, it is `resolver(state written by the undone transaction, CURRENT state — also
+    when the current revision is itself an undo record —, state before the undone transaction)`
+    re-pickled after the previous revision's class meta data … -/
+theorem undo_record_merged (E : Env) (k : Kind) (hist base : Hist) (cache : List ClassId) (oid : Oid)
+    (undone : Tid) (d : Record)
+    (h : (undoRecord E k hist base cache oid undone).out = .merged d) :
+    ∃ ct preData curData old m,
+      currentTid (viewOf k hist base) oid = some ct ∧ ct ≠ undone ∧
+      prevRecord (viewOf k hist base) oid undone = some preData ∧
+      loadSerialMapping (viewOf k hist base) oid ct = some curData ∧
+      loadSerialK k hist base oid undone = some old ∧
+      E.resolver preData.hdr.cls (loadState E.ci old.state) (loadState E.ci curData.state)
+        (loadState E.ci preData.state) = .ok m ∧
+      d = { hdr := preData.hdr, state := dumpState m } :=
+  Proofs.C10Props.undo_record_merged E k hist base cache oid undone d h
+
+/-- … and if it is a plain copy (undone revision is current, or holds the current data) it is the
+    previous revision and the resolver is not called. -/
+theorem undo_record_copy (E : Env) (k : Kind) (hist base : Hist) (cache : List ClassId) (oid : Oid)
+    (undone : Tid) (d : Record)
+    (h : (undoRecord E k hist base cache oid undone).out = .copy d) :
+    prevRecord (viewOf k hist base) oid undone = some d ∧
+    (undoRecord E k hist base cache oid undone).call = none :=
+  Proofs.C10Props.undo_record_copy E k hist base cache oid undone d h
+
 /-! ### non-vacuity -/
 
 def exEnv : Env :=
